@@ -446,7 +446,9 @@ func vc15Section(c cid.Cid, data []byte) []byte {
 }
 
 // check one delivered object against the file bytes and the generator's ground truth; returns its item
-func vc15CheckObj(car *vc15Car, o *ObjectWithMetadata, res *vc15Result, where string) vc15Item {
+func vc15CheckObj(car *vc15Car, op *ObjectWithMetadata, res *vc15Result, where string) vc15Item {
+	ov := *op // one copy: if the implementation overwrites the value meanwhile, the checks below stay consistent
+	o := &ov
 	it := vc15Item{Idx: -1, Off: o.Offset, Slen: o.SectionLength}
 	idx, ok := car.byCid[string(o.Cid.Bytes())]
 	if !ok {
